@@ -508,60 +508,141 @@ var vc01Families = []vc01Family{
 	{"numbers-many", func(n int) string { return vc01Rep("-1 ", n) }},
 }
 
-var vc01Sizes = []int{1250, 2500, 5000, 10000}
+var vc01Sizes = []int{312, 625, 1250, 2500, 5000, 10000}
 
 const (
-	vc01CallCap      = 10 * time.Second // absolute cap for one call on <= 10^4 tokens
-	vc01CallAbandon  = 25 * time.Second // give up waiting (reported as hang)
-	vc01EnumHang     = 8 * time.Second  // one short enumerated input must never take this long
-	vc01GrowthFloor  = 150 * time.Millisecond
-	vc01GrowthExp    = 2.5 // fitted exponent over 1250..10000 tokens
-	vc01GrowthLastX2 = 6.5 // time(10000)/time(5000); 4 is quadratic, 8 is cubic
+	vc01EnumHang    = 8 * time.Second       // one short enumerated input must never take this long
+	vc01GrowthFloor = 60 * time.Millisecond // below this a measurement is noise
+	vc01Growth2     = 36.0                  // time(4n)/time(n): 16 is quadratic, 64 is cubic
+	vc01Growth1     = 5.0                   // and time(4n)/time(2n): 4 is quadratic, 8 is cubic
 )
 
-type vc01TimingRow struct {
-	family string
-	cfg    int
-	times  [vc01NStages][]time.Duration // per size; -1 = not run
+// vc01Cap is the generous absolute bound for one call on n tokens: quadratic, 60s at 10^4 tokens.
+func vc01Cap(n int) time.Duration {
+	f := float64(n) / 10000
+	return time.Second + time.Duration(60*f*f*float64(time.Second))
 }
 
-// vc01TimeOne measures all six operations on one input; returns the tree for reuse.
-func vc01TimeOne(in string, cfg *vc01Cfg) (d [vc01NStages]time.Duration, pan [vc01NStages]string) {
-	var r vc01Res
-	for stage := 0; stage < vc01NStages; stage++ {
-		d[stage] = -1
-		if stage >= vc01StString && r.tree == nil {
-			continue
+// vc01Ladder is the measurement of one shape family under one option at growing sizes.  An
+// operation is measured at the next size only while it stayed below the per-call budget, so
+// quadratic operations with a large constant (json.Marshal of deep trees) do not blow the budget.
+type vc01Ladder struct {
+	family *vc01Family
+	cfg    int
+
+	mu        sync.Mutex
+	callStage int // operation currently running (-1 none), for the hang watchdog
+	callN     int
+	callSince time.Time
+	times     [vc01NStages][]time.Duration // measured times by size index (consecutive from 0)
+	finds     []vc01Fail                   // failures found on the way (category in findCats)
+	findCats  []string
+	done      bool
+}
+
+func (l *vc01Ladder) find(cat, in, msg string) {
+	l.mu.Lock()
+	l.findCats = append(l.findCats, cat)
+	l.finds = append(l.finds, vc01Fail{in, msg})
+	l.mu.Unlock()
+}
+
+// vc01Measure runs one operation (min of a few repetitions when it is fast).
+func (l *vc01Ladder) measure(stage, n int, in string, tree *expr.Expression, reps int) (best time.Duration, res vc01Res, panicked bool) {
+	cfg := &vc01Cfgs[l.cfg]
+	best = time.Duration(math.MaxInt64)
+	for rep := 0; rep < reps; rep++ {
+		var rr vc01Res
+		rr.tree = tree
+		l.mu.Lock()
+		l.callStage, l.callN, l.callSince = stage, n, time.Now()
+		l.mu.Unlock()
+		t0 := time.Now()
+		p, site := vc01Stage(stage, in, cfg.opts, &rr)
+		el := time.Since(t0)
+		l.mu.Lock()
+		l.callStage = -1
+		l.mu.Unlock()
+		if p != nil {
+			cat := "panic-" + site
+			l.find(cat, in, fmt.Sprintf("[%s] %s : %s on shape %s(%d tokens) with %s must return normally, it panicked: %v", cat, vc01Abbrev(in), vc01StageName[stage], l.family.name, n, cfg.name, p))
+			return 0, rr, true
 		}
-		best := time.Duration(math.MaxInt64)
-		for rep := 0; rep < 2; rep++ {
-			var rr vc01Res
-			rr.tree = r.tree
-			t0 := time.Now()
-			p, site := vc01Stage(stage, in, cfg.opts, &rr)
-			el := time.Since(t0)
-			if p != nil {
-				pan[stage] = fmt.Sprintf("panic-%s|%v", site, p)
-				break
-			}
-			if el < best {
-				best = el
-			}
-			if stage == vc01StParse {
-				if rr.err != nil {
-					rr.tree = nil
-				}
-				r = rr
-			}
-			if el > 400*time.Millisecond {
-				break
-			}
+		if el < best {
+			best = el
 		}
-		if best != time.Duration(math.MaxInt64) {
-			d[stage] = best
+		res = rr
+		if el > 100*time.Millisecond {
+			break
 		}
 	}
-	return d, pan
+	return best, res, false
+}
+
+func (l *vc01Ladder) run(budget time.Duration, reps int) {
+	defer func() {
+		l.mu.Lock()
+		l.done = true
+		l.mu.Unlock()
+	}()
+	cfg := &vc01Cfgs[l.cfg]
+	var active [vc01NStages]bool
+	for i := range active {
+		active[i] = true
+	}
+	for _, n := range vc01Sizes {
+		in := l.family.gen(n)
+		var tree *expr.Expression
+		for stage := 0; stage < vc01NStages; stage++ {
+			if !active[stage] || (stage >= vc01StString && tree == nil) {
+				active[stage] = false // keep the measured sizes consecutive
+				continue
+			}
+			d, res, panicked := l.measure(stage, n, in, tree, reps)
+			if panicked {
+				active[stage] = false
+				continue
+			}
+			if stage == vc01StParse && res.err == nil {
+				tree = res.tree
+			}
+			l.mu.Lock()
+			l.times[stage] = append(l.times[stage], d)
+			l.mu.Unlock()
+			if d > vc01Cap(n) {
+				cat := "slow-" + vc01StageTag[stage] + "-" + l.family.name
+				l.find(cat, in, fmt.Sprintf("[%s] %s : %s on shape %s(%d tokens) with %s took %v, the (generous, quadratic) cap for this size is %v", cat, vc01Abbrev(in), vc01StageName[stage], l.family.name, n, cfg.name, d, vc01Cap(n)))
+			}
+			if stage != vc01StParse && stage != vc01StJSON && res.text != "" && !strings.Contains(in, "%!") {
+				if suffix, excerpt := vc01Marker(res.text); suffix != "" {
+					cat := "fmt-marker-" + vc01StageTag[stage] + "-" + suffix
+					l.find(cat, in, fmt.Sprintf("[%s] %s : text of %s with %s must not contain a Go formatting-error marker, it contains %q", cat, vc01Abbrev(in), vc01StageName[stage], cfg.name, excerpt))
+				}
+			}
+			if d > budget {
+				active[stage] = false
+			}
+		}
+		if !active[vc01StParse] {
+			return
+		}
+	}
+}
+
+// vc01Growth decides from the measured times whether an operation grows faster than quadratically.
+func vc01Growth(ts []time.Duration) (flag bool, desc string) {
+	k := len(ts)
+	if k < 3 {
+		return false, ""
+	}
+	last := ts[k-1]
+	if ts[k-3] <= 0 || ts[k-2] <= 0 {
+		return false, ""
+	}
+	r2 := float64(last) / float64(ts[k-3])
+	r1 := float64(last) / float64(ts[k-2])
+	desc = fmt.Sprintf("%v at %v tokens: time(4n)/time(n)=%.1f (quadratic: 16), time(4n)/time(2n)=%.1f (quadratic: 4)", ts, vc01Sizes[:k], r2, r1)
+	return last >= vc01GrowthFloor && r2 > vc01Growth2 && r1 > vc01Growth1, desc
 }
 
 // ---------------------------------------------------------------------------------------------
@@ -625,12 +706,13 @@ func TestVerifStandin_C01(t *testing.T) {
 	rep.Failures = nil
 
 	byteLen, tokLen, chunkLen, nRandom := 4, 4, 3, 120000
-	smallByteLen := 5
+	smallByteLen := 4
 	if tier == "thorough" {
 		byteLen, tokLen, chunkLen, nRandom = 4, 5, 4, 1500000
 		smallByteLen = 6
 	}
 
+	t0 := time.Now()
 	workers := runtime.NumCPU()
 	if workers < 2 {
 		workers = 2
@@ -842,125 +924,126 @@ func TestVerifStandin_C01(t *testing.T) {
 	}
 
 	// ---- phase 2: adversarial long shapes, timing ------------------------------------------
+	phase1Dur := time.Since(t0)
+	t1 := time.Now()
 	if !hung {
-		type job struct {
-			fam *vc01Family
-			cfg int
+		budget, abandon, reps := 250*time.Millisecond, 20*time.Second, 2
+		if tier == "thorough" {
+			budget, abandon, reps = 3*time.Second, 90*time.Second, 3
 		}
-		jobs := make(chan job, len(vc01Families)*len(vc01Cfgs))
 		ncfg := 2 // long shapes: no default field, default field "f"
+		var ladders []*vc01Ladder
 		for i := range vc01Families {
 			for c := 0; c < ncfg; c++ {
-				jobs <- job{&vc01Families[i], c}
+				ladders = append(ladders, &vc01Ladder{family: &vc01Families[i], cfg: c, callStage: -1})
 			}
+		}
+		jobs := make(chan *vc01Ladder, len(ladders))
+		for _, l := range ladders {
+			jobs <- l
 		}
 		close(jobs)
 		tw := workers / 2
 		if tw < 1 {
 			tw = 1
 		}
-		var mu sync.Mutex
-		var rows []vc01TimingRow
+		var started sync.Map
+		allDone := make(chan struct{})
 		var twg sync.WaitGroup
-		abandoned := atomic.Bool{}
 		for w := 0; w < tw; w++ {
 			twg.Add(1)
 			go func() {
 				defer twg.Done()
-				for j := range jobs {
-					if abandoned.Load() {
-						return
-					}
-					row := vc01TimingRow{family: j.fam.name, cfg: j.cfg}
-					for _, n := range vc01Sizes {
-						in := j.fam.gen(n)
-						type res struct {
-							d   [vc01NStages]time.Duration
-							pan [vc01NStages]string
-						}
-						ch := make(chan res, 1)
-						go func() {
-							d, p := vc01TimeOne(in, &vc01Cfgs[j.cfg])
-							ch <- res{d, p}
-						}()
-						var r res
-						select {
-						case r = <-ch:
-						case <-time.After(vc01CallAbandon):
-							abandoned.Store(true)
-							mu.Lock()
-							total.add("hang-"+j.fam.name, in, fmt.Sprintf("[hang-%s] %s : shape %s(%d tokens) with %s must finish in polynomial time, still running after %v", j.fam.name, vc01Abbrev(in), j.fam.name, n, vc01Cfgs[j.cfg].name, vc01CallAbandon), 1)
-							mu.Unlock()
-							return
-						}
-						mu.Lock()
-						rep.Evaluations++
-						for st := 0; st < vc01NStages; st++ {
-							row.times[st] = append(row.times[st], r.d[st])
-							if r.pan[st] != "" {
-								parts := strings.SplitN(r.pan[st], "|", 2)
-								total.add(parts[0], in, fmt.Sprintf("[%s] %s : %s on shape %s(%d tokens) with %s must return normally, it panicked: %s", parts[0], vc01Abbrev(in), vc01StageName[st], j.fam.name, n, vc01Cfgs[j.cfg].name, parts[1]), 1)
-							}
-							if r.d[st] > vc01CallCap {
-								cat := "slow-" + vc01StageTag[st] + "-" + j.fam.name
-								total.add(cat, in, fmt.Sprintf("[%s] %s : %s on shape %s(%d tokens) with %s took %v, cap is %v", cat, vc01Abbrev(in), vc01StageName[st], j.fam.name, n, vc01Cfgs[j.cfg].name, r.d[st], vc01CallCap), 1)
-							}
-						}
-						mu.Unlock()
-						// the marker / parse-contract part of the statement on the long input as well
-						if n == vc01Sizes[0] || n == vc01Sizes[len(vc01Sizes)-1] {
-							for _, f := range vc01Check(in, nil) {
-								if strings.HasPrefix(f.cat, "panic-") {
-									continue // already recorded above
-								}
-								mu.Lock()
-								total.add(f.cat, in, "["+f.cat+"] "+f.msg, 1)
-								mu.Unlock()
-							}
-						}
-					}
-					mu.Lock()
-					rows = append(rows, row)
-					mu.Unlock()
+				for l := range jobs {
+					started.Store(l, true)
+					l.run(budget, reps)
 				}
 			}()
 		}
-		twg.Wait()
-		sort.Slice(rows, func(i, j int) bool {
-			if rows[i].family != rows[j].family {
-				return rows[i].family < rows[j].family
+		go func() { twg.Wait(); close(allDone) }()
+		// watchdog: a single call that does not come back is a hang
+		tk := time.NewTicker(250 * time.Millisecond)
+	wait:
+		for {
+			select {
+			case <-allDone:
+				break wait
+			case <-tk.C:
+				for _, l := range ladders {
+					l.mu.Lock()
+					stuck := l.callStage >= 0 && time.Since(l.callSince) > abandon
+					st, n := l.callStage, l.callN
+					l.mu.Unlock()
+					if stuck {
+						hung = true
+						in := l.family.gen(n)
+						cat := "hang-" + vc01StageTag[st] + "-" + l.family.name
+						total.add(cat, in, fmt.Sprintf("[%s] %s : %s on shape %s(%d tokens) with %s must finish in polynomial time, still running after %v", cat, vc01Abbrev(in), vc01StageName[st], l.family.name, n, vc01Cfgs[l.cfg].name, abandon), 1)
+						break wait
+					}
+				}
 			}
-			return rows[i].cfg < rows[j].cfg
-		})
-		last := len(vc01Sizes) - 1
+		}
+		tk.Stop()
 		type slowest struct {
 			desc string
 			d    time.Duration
 		}
 		var top []slowest
-		for _, row := range rows {
+		maxTokens := [vc01NStages]int{}
+		for _, l := range ladders {
+			l.mu.Lock()
+			if !l.done {
+				l.mu.Unlock()
+				continue
+			}
+			rep.Evaluations += int64(len(l.times[vc01StParse]))
+			for i, f := range l.finds {
+				total.add(l.findCats[i], f.in, f.msg, 1)
+			}
 			for st := 0; st < vc01NStages; st++ {
-				ts := row.times[st]
-				if len(ts) != len(vc01Sizes) || ts[last] < 0 || ts[0] <= 0 || ts[last-1] <= 0 {
+				ts := l.times[st]
+				if len(ts) == 0 {
 					continue
 				}
-				exp := math.Log(float64(ts[last])/float64(ts[0])) / math.Log(float64(vc01Sizes[last])/float64(vc01Sizes[0]))
-				lastX2 := float64(ts[last]) / float64(ts[last-1])
-				desc := fmt.Sprintf("%s / %s / %s: %v %v %v %v (exponent %.2f, last doubling x%.1f)", row.family, vc01StageName[st], vc01Cfgs[row.cfg].name, ts[0], ts[1], ts[2], ts[3], exp, lastX2)
-				top = append(top, slowest{desc, ts[last]})
-				if ts[last] >= vc01GrowthFloor && (exp > vc01GrowthExp || lastX2 > vc01GrowthLastX2) {
-					cat := "superquadratic-" + vc01StageTag[st] + "-" + row.family
-					in := "shape " + row.family
-					total.add(cat, in, fmt.Sprintf("[%s] %s : running time must grow at most quadratically between n and 2n tokens, measured at %v tokens: %s", cat, strconv.Quote(vc01Families[vc01FamilyIndex(row.family)].gen(8)), vc01Sizes, desc), 1)
+				if n := vc01Sizes[len(ts)-1]; n > maxTokens[st] {
+					maxTokens[st] = n
+				}
+				flag, desc := vc01Growth(ts)
+				top = append(top, slowest{fmt.Sprintf("%s / %s / %s: %s", l.family.name, vc01StageName[st], vc01Cfgs[l.cfg].name, desc), ts[len(ts)-1]})
+				if flag {
+					// confirm alone (no concurrent load), best of 3
+					k := len(ts)
+					var again []time.Duration
+					for _, n := range vc01Sizes[k-3 : k] {
+						in := l.family.gen(n)
+						var tree *expr.Expression
+						if st >= vc01StString {
+							tree, _ = Parse(in, vc01Cfgs[l.cfg].opts...)
+						}
+						c := &vc01Ladder{family: l.family, cfg: l.cfg, callStage: -1}
+						d, _, _ := c.measure(st, n, in, tree, 3)
+						again = append(again, d)
+					}
+					flag2, desc2 := vc01Growth(again)
+					if flag2 {
+						cat := "superquadratic-" + vc01StageTag[st] + "-" + l.family.name
+						total.add(cat, "shape "+l.family.name, fmt.Sprintf("[%s] %s : running time of %s with %s on shape %s must grow at most quadratically between n and 2n tokens; measured %s; re-measured alone at %v tokens: %s",
+							cat, strconv.Quote(l.family.gen(12)), vc01StageName[st], vc01Cfgs[l.cfg].name, l.family.name, desc, vc01Sizes[k-3:k], desc2), 1)
+					}
 				}
 			}
+			l.mu.Unlock()
 		}
 		sort.Slice(top, func(i, j int) bool { return top[i].d > top[j].d })
 		for i := 0; i < len(top) && i < 8; i++ {
 			rep.Timing = append(rep.Timing, top[i].desc)
 		}
-		rep.Domains[fmt.Sprintf("long-shapes-%d-families-x-%d-sizes-x-%d-options", len(vc01Families), len(vc01Sizes), ncfg)] = int64(len(vc01Families) * len(vc01Sizes) * ncfg)
+		rep.Timing = append(rep.Timing, fmt.Sprintf("largest shape size (tokens) reached per operation within the per-call budget of %v: Parse %d, ToPostgres %d, ToParameterizedPostgres %d, String %d, %%#v %d, json.Marshal %d",
+			budget, maxTokens[0], maxTokens[1], maxTokens[2], maxTokens[3], maxTokens[4], maxTokens[5]))
+		rep.Domains[fmt.Sprintf("long-shapes-%d-families-x-%d-options-at-%v-tokens", len(vc01Families), ncfg, vc01Sizes)] = int64(len(ladders))
 	}
+	phase2Dur := time.Since(t1)
 
 	// ---- shrink what was only found beyond the exhaustive bounds ----------------------------
 	if !hung {
@@ -1018,7 +1101,8 @@ func TestVerifStandin_C01(t *testing.T) {
 	rep.Notes = append(rep.Notes,
 		fmt.Sprintf("json.Marshal returned an error (a normal return, not a failure) for %d input/option pairs (NaN/Inf values, nesting deeper than encoding/json allows)", jsonErrs),
 		fmt.Sprintf("%d inputs contain \"%%!\" themselves; the marker check does not apply to them", skipped),
-		"growth rule: flagged when time(10000 tokens) >= 150ms and (fitted exponent over 1250..10000 > 2.5 or time(10000)/time(5000) > 6.5); absolute cap 10s per call",
+		"growth rule: an operation is measured at 312,625,...,10000 tokens while one call stays within the per-call budget; flagged when, at the three largest sizes n,2n,4n measured, time(4n) >= 60ms, time(4n)/time(n) > 36 and time(4n)/time(2n) > 5, and a second measurement without concurrent load confirms; absolute cap per call 1s + 60s*(n/10^4)^2",
+		fmt.Sprintf("wall time: short inputs %v, long shapes %v", phase1Dur.Round(time.Millisecond), phase2Dur.Round(time.Millisecond)),
 	)
 	vc01WriteReport(rep)
 
@@ -1029,13 +1113,4 @@ func TestVerifStandin_C01(t *testing.T) {
 		t.Errorf("C01 violated: %d failures in total in %d categories (see report)", rep.FailCount, len(cats))
 	}
 	t.Logf("C01 %s: %d inputs, %d with a tree, %d failures in %d categories", tier, rep.Evaluations, rep.Distinct, rep.FailCount, len(cats))
-}
-
-func vc01FamilyIndex(name string) int {
-	for i := range vc01Families {
-		if vc01Families[i].name == name {
-			return i
-		}
-	}
-	return 0
 }
